@@ -140,3 +140,99 @@ func luScenario(r *rec.Rand) *scen.Scenario {
 	rec.Shuffle(r, s.Tuples)
 	return s
 }
+
+// twoSourceScenario: an operand of an intersection (or union / exclusion) that fans out to several
+// sources for the same user -- usersets of two group types or tuple-to-userset parents -- one of
+// them through an exclusion (`member: [user] but not banned`, users both member and banned), and
+// users that are reachable over several paths (directly, through groups, through both).  Found
+// users then arrive several times and with both relationship statuses; the driver varies their
+// arrival order (delayed reads) and the result limit around the number of distinct users.
+func twoSourceScenario(r *rec.Rand) *scen.Scenario {
+	s := &scen.Scenario{Shape: "lu-two-sources"}
+	U := scen.RObj("user")
+	group := scen.TypeDef{Name: "group", Rels: []scen.RelDef{
+		{Name: "banned", RW: scen.This(), Restr: []scen.Restr{U}},
+		{Name: "member", RW: scen.Diff(scen.This(), scen.Comp("banned")), Restr: []scen.Restr{U}},
+	}}
+	team := scen.TypeDef{Name: "team", Rels: []scen.RelDef{
+		{Name: "member", RW: scen.This(), Restr: []scen.Restr{U}},
+	}}
+	var src scen.RelDef
+	var parent *scen.RelDef
+	if r.Chance(2, 3) {
+		src = scen.RelDef{Name: "editor", RW: scen.This(), Restr: []scen.Restr{scen.RSet("group", "member"), scen.RSet("team", "member")}}
+		if r.Chance(1, 2) {
+			src.Restr = append(src.Restr, U)
+		}
+	} else {
+		parent = &scen.RelDef{Name: "parent", RW: scen.This(), Restr: []scen.Restr{scen.RObj("group"), scen.RObj("team")}}
+		src = scen.RelDef{Name: "editor", RW: scen.TTU("parent", "member")}
+		if r.Chance(1, 2) {
+			src.RW = scen.Union(scen.This(), scen.TTU("parent", "member"))
+			src.Restr = []scen.Restr{U}
+		}
+	}
+	allowed := scen.RelDef{Name: "allowed", RW: scen.This(), Restr: []scen.Restr{U}}
+	if r.Chance(1, 3) {
+		allowed.Restr = append(allowed.Restr, scen.RWild("user"))
+	}
+	var vrw *scen.Rewrite
+	switch r.Intn(6) {
+	case 0, 1, 2:
+		vrw = scen.Inter(scen.Comp("editor"), scen.Comp("allowed"))
+	case 3:
+		vrw = scen.Inter(scen.Comp("allowed"), scen.Comp("editor"), scen.Comp("allowed"))
+	case 4:
+		vrw = scen.Union(scen.Comp("editor"), scen.Comp("allowed"))
+	default:
+		vrw = scen.Diff(scen.Comp("allowed"), scen.Comp("editor"))
+	}
+	doc := scen.TypeDef{Name: "doc"}
+	if parent != nil {
+		doc.Rels = append(doc.Rels, *parent)
+	}
+	doc.Rels = append(doc.Rels, src, allowed, scen.RelDef{Name: "viewer", RW: vrw})
+	s.Types = []scen.TypeDef{{Name: "user"}, group, team, doc}
+	add := func(o, rel, u string) { s.Tuples = append(s.Tuples, scen.Tuple{Obj: o, Rel: rel, User: u}) }
+	users := []string{"a", "b", "c"}
+	for _, g := range []string{"1", "2"} {
+		for _, u := range users {
+			if r.Chance(2, 3) {
+				add("group:"+g, "member", "user:"+u)
+			}
+			if r.Chance(1, 2) {
+				add("group:"+g, "banned", "user:"+u)
+			}
+			if r.Chance(1, 2) {
+				add("team:"+g, "member", "user:"+u)
+			}
+		}
+	}
+	for _, d := range []string{"1", "2"} {
+		for _, g := range []string{"1", "2"} {
+			for _, t := range []string{"group", "team"} {
+				if !r.Chance(2, 3) {
+					continue
+				}
+				if parent != nil {
+					add("doc:"+d, "parent", t+":"+g)
+				} else {
+					add("doc:"+d, "editor", t+":"+g+"#member")
+				}
+			}
+		}
+		for _, u := range users {
+			if r.Chance(2, 3) {
+				add("doc:"+d, "allowed", "user:"+u)
+			}
+			if src.RW.HasThis() && len(src.Restr) > 0 && src.Restr[len(src.Restr)-1] == U && r.Chance(1, 3) {
+				add("doc:"+d, "editor", "user:"+u)
+			}
+		}
+		if len(allowed.Restr) > 1 && r.Chance(1, 2) {
+			add("doc:"+d, "allowed", "user:*")
+		}
+	}
+	rec.Shuffle(r, s.Tuples)
+	return s
+}
